@@ -172,6 +172,11 @@ impl MainState {
     }
 
     pub(crate) async fn remove_user(&self, conn_state: &ConnState) {
+        // only a registered connection owns a user - nick of unregistered connection
+        // can be nick of other user.
+        if !conn_state.user_state.authenticated {
+            return;
+        }
         if let Some(ref nick) = conn_state.user_state.nick {
             let mut state = self.state.write().await;
             state.remove_user(nick);
